@@ -435,6 +435,19 @@ def c13_metal(tier, rnd):
             items = main + lib
             progs.append(program(items, dict(al.dom), main=len(main), libs=[{"from": len(main) + 1, "to": len(items)}],
                                  fam="C13.metal:%s:%s" % (where, fb)))
+    # a macro (or a filler) defines a global and then fails; the caller's tal:on-error recovers: the definition is there
+    for where in ("macro", "filler"):
+        al = Alloc(tier)
+        gdef = [(True, "x", al.call("define", [S("b")]))]
+        lib = [Open(dm="m1", name="div", sattr=[], define=gdef if where == "macro" else ()),
+               Text("M"), Open(ds="s", name="i", sattr=[]), Text("D"), CLOSE, Text("n", al.call("content", d)), CLOSE]
+        fill = [Open(fs="s", name="b", sattr=[], define=gdef if where == "filler" else ()), Text("F"), CLOSE]
+        main = [Text("pre", pipe(var("x"), const(S("u0")))), Open(name="p", oe=(False, const(S("a"))), sattr=[]),
+                Open(um=("m1", 1, False), name="section", sattr=[]), Text("ign")] + fill + [CLOSE, CLOSE,
+                Text("post", pipe(var("x"), const(S("u0"))))]
+        items = main + lib
+        progs.append(program(items, dict(al.dom), main=len(main), libs=[{"from": len(main) + 1, "to": len(items)}],
+                             fam="C13.metal:global-then-fail:%s" % where))
     return progs
 
 
@@ -1131,4 +1144,14 @@ def c10_family(tier, rnd):
                            Open(name="span", nm="n", sattr=[]), Open(ds="s", name="u", sattr=[]), Text("default"), CLOSE, CLOSE,
                            Text(" !"), CLOSE, CLOSE]
             add(main + lib, al, "T7:%s:%s" % (variant, v), v, main=len(main), libs=[{"from": len(main) + 1, "to": len(main) + len(lib)}])
+    # T8: the translation settings of a subtree that failed under tal:on-error end with it
+    for sets in ({"d": "inner"}, {"c": "ic", "t": "fr"}, {"d": "inner", "c": "ic", "t": "de"}):
+        for outer in ({}, {"d": "outer"}):
+            al = Alloc(tier)
+            items = [Open(name="div", i18n=outer or None, sattr=[]),
+                     Open(name="p", oe=(False, const(S("a"))), sattr=[]),
+                     Open(name="span", i18n=sets, sattr=[]), Open(name="i", tr="", sattr=[]), Text("inside"), CLOSE,
+                     Text("t", al.call("content", [S("a"), EXC("ZeroDivisionError")])), CLOSE, CLOSE,
+                     Open(name="b", tr="", sattr=[]), Text("after"), CLOSE, Text("m", al.call("content", M)), CLOSE]
+            add(items, al, "T8:%s/%s" % (sorted(sets.items()), sorted(outer.items())), "identity")
     return progs
